@@ -11,8 +11,10 @@ macro_rules! props {
     };
 }
 props! {
+    c02: C02: "C02",
     c03: C03: "C03",
     c04: C04: "C04",
+    c05: C05: "C05",
     c06: C06: "C06",
     c14: C14: "C14",
 }
